@@ -4,12 +4,5 @@ INVARIANT Laws
 INVARIANT Once
 CHECK_DEADLOCK FALSE
 CONSTANTS
-  Kinds = {"dict", "dictk", "list", "tuple", "pipe", "spec", "coalesce"}
-  LeafSet = "small"
-  CoalSet = "basic"
-  MaxDepth = 2
-  MaxNodes = 3
-  MaxWidth = 2
-  MaxStack = 2
-  Roots = {1, 2, 3}
+  Families = {"q_nest", "q_pairs", "q_leaves", "q_coal1", "q_coal2", "q_calls", "q_modes"}
   Mutant = "none"
